@@ -102,6 +102,26 @@ func VH_C14_churn() {
 	s.Clear()
 	vAssert(s.Len() == 0 && len(snap2) == 5, "clear-does-not-change-a-snapshot")
 	vLog("len", s.Len())
+	// a store cleared while it was big (all n keys live) is an empty store like any other, whatever
+	// comes first afterwards
+	for i := 0; i < n; i++ {
+		s.Set(vKeys[i], i)
+	}
+	s.Clear()
+	switch vChoice("firstOperationAfterABigClear", 4) {
+	case 0:
+		s.Merge(map[string]any{"m1": 1, "m2": 2})
+		vAssert(s.Len() == 2 && s.Has("m1") && s.Has("m2"), "merge-after-a-big-clear")
+	case 1:
+		s.Set("s1", 1)
+		vAssert(s.Len() == 1 && s.Has("s1"), "set-after-a-big-clear")
+	case 2:
+		s.Delete(vKeys[0])
+		s.Merge(nil)
+		vAssert(s.Len() == 0, "delete-after-a-big-clear")
+	default:
+		vAssert(s.Len() == 0 && len(s.Keys()) == 0 && len(s.GetAll()) == 0 && !s.Has(vKeys[0]), "reads-after-a-big-clear")
+	}
 	vCover("churn")
 }
 
